@@ -203,7 +203,13 @@ class Facts(Walker):
         if npn is not None:
             last = npn.split(".")[-1]
             if last == "norm" and args:
-                return norm_of(self.vn(args[0], st))
+                # a norm taken along an axis (one value per row) is a different quantity from the norm of the whole array:
+                # ``norm(X) > 0`` does not make any row norm non-zero
+                axis = next((k.value for k in node.keywords if k.arg == "axis"), args[2] if len(args) > 2 else None)
+                inner = self.vn(args[0], st)
+                if axis is not None and not (isinstance(axis, ast.Constant) and axis.value is None):
+                    return norm_of("rows:" + inner)
+                return norm_of(inner)
             if last in VALUE_PRESERVING_NP and args:
                 return self.vn(args[0], st)
             return "np.%s(%s)" % (npn, ",".join(self.vn(a, st) for a in args if not isinstance(a, ast.Starred)))
@@ -437,7 +443,7 @@ class Facts(Walker):
 
     def derive_binop(self, new, op, l, r, st, left_node=None, typed=None, inplace=False):
         # x / norm(x)  (self-normalisation)
-        if op == "Div" and r == norm_of(l):
+        if op == "Div" and r in (norm_of(l), norm_of("rows:" + l)):
             self.add(st, "UNIT", new)
         if l in st["C"] or r in st["C"]:
             st["C"] = st["C"] | {new}
@@ -451,7 +457,7 @@ class Facts(Walker):
             return True
         if isinstance(node, ast.BinOp) and isinstance(node.op, ast.Div):
             l, r = self.vn(node.left, st), self.vn(node.right, st)
-            if r == norm_of(l):
+            if r in (norm_of(l), norm_of("rows:" + l)):
                 return True
             # x / norm(x, axis=1)[:, None] handled by value-preserving shape indexing
         if isinstance(node, ast.BinOp) and isinstance(node.op, (ast.Add, ast.Sub)):
@@ -628,12 +634,16 @@ def _phi(a, b):
 def norm_of(vn):
     """canonical value number of the Euclidean norm of ``vn``: zero padding and join of norm-equal alternatives are transparent"""
     def core(x):
+        pre = ""
+        if x.startswith("rows:"):
+            pre, x = "rows:", x[5:]
         while x.startswith("pad0(") and x.endswith(")"):
             x = x[5:-1]
-        return x
+        return pre + x
     vn = core(vn)
-    if vn in PHI:
-        cores = {core(p) for p in PHI[vn]}
+    pre, bare = ("rows:", vn[5:]) if vn.startswith("rows:") else ("", vn)
+    if bare in PHI:
+        cores = {core(pre + p) for p in PHI[bare]}
         if len(cores) == 1:
             return "norm(%s)" % cores.pop()
     return "norm(%s)" % vn
